@@ -9,17 +9,22 @@ THEOREMS = ["Mesa.Agents." + t for t in (
     "C02_unique_ids_all_histories", "C02_ids_never_change", "C02_remove_atomic_and_idempotent",
     "C02_other_models_untouched", "C02_create_agents_splits_arguments", "C02_sets_nodup_all_histories",
     "C02_other_models_untouched_all_histories", "C02_direct_register_and_deregister",
-    "C02_removed_stays_removed_everywhere", "C02_copy_shows_the_members_at_that_moment")]
+    "C02_removed_stays_removed_everywhere", "C02_copy_shows_the_members_at_that_moment",
+    "C02_new_model_numbers_from_one_also_after_dropped_models")]
 COUNTS = {"quick": 1000, "thorough": 150000}
 TRUSTED = [
     "CPython dict / WeakKeyDictionary keep insertion order; deleting a key keeps the order of the others (the model uses lists)",
     "CPython refcounting: an agent dies exactly when its model deregisters it and the program holds no reference",
     "itertools.count(1) per model instance (Agent._ids) yields 1,2,3,…",
+    "dropmodel (Python only, no model expresses it): a model the program no longer references, with its agents, is reclaimed by gc.collect() "
+    "(the harness deletes the Agent._ids[model] entry that keeps it alive in unpatched mesa), and CPython may place the next Model() at the "
+    "address of a dead one - the harness steers it there (object.__new__ until the address matches, then __init__; mesa's Model has no __new__)",
     "agent callbacks are scripts (remove self / remove other / create / drop reference / edit a program-made set / raise); arbitrary Python side effects are not modelled",
 ]
 ASSUMPTIONS = ["the program changes model.agents only by in-place shuffle/sort (the property's 'explicitly reordered in place'); "
                "select(inplace=True)/add/discard on the registry's own sets are outside the quantifier"]
-RULE = ("random histories over 1-5 coexisting models and a 4-class hierarchy (T0<-T1<-T3, T2): constructor and create_agents "
+RULE = ("random histories over 1-5 coexisting models (and sweeps in which models are dropped with their agents, garbage collected and "
+        "replaced by new ones, which must number from 1) and a 4-class hierarchy (T0<-T1<-T3, T2): constructor and create_agents "
         "(n=0..4; one or two arguments, positional or keyword, each a single object or a list / tuple / ndarray of length n or of another "
         "length), the rejected assignment model.agents = [...], remove (also twice, also of held agents), remove_all_agents, "
         "model.register_agent / model.deregister_agent called directly (also twice, also on removed-but-held agents), in-place "
